@@ -397,7 +397,17 @@ fn generate(seed: u64) -> Workload {
         let ndirs = r.usize_below(3);
         let dirs: Vec<String> = (0..ndirs).map(|i| hex(format!("d{}", r.below(2) + i as u64 * 2).as_bytes())).collect();
         let key = (dirs.clone(), name.clone());
-        if !seen.insert(key) {
+        // a resource must not be named like the lock file of another one (`x` and `x.lock` in one directory): then one
+        // actor's committed resource *is* the other's lock file, and whatever the second does to its lock happens to the
+        // first one's data — an aliasing inherent to lock files (git's too), outside the statement
+        let mut with_lock = name.clone();
+        with_lock.extend_from_slice(b".lock");
+        let aliased = seen.iter().any(|(d, n): &(Vec<String>, Vec<u8>)| {
+            let mut n_lock = n.clone();
+            n_lock.extend_from_slice(b".lock");
+            d == &dirs && (n == &with_lock || n_lock == name)
+        });
+        if aliased || !seen.insert(key) {
             continue;
         }
         let dir_exists = ndirs == 0 || r.chance(500);
